@@ -72,6 +72,7 @@ type TxPlan struct {
 	Garbage      bool // raw bytes, not a well-formed signed tx of ours
 	Tampered     bool // altered after signing in a way that changes a signed field / signer / chain
 	SigMalleated bool
+	InertMut  bool // a mutation of the bytes that the node's decoder ignores (decoded tx identical)
 	Signer       Addr
 	ReplayOf     int // >=0 : bytes of an earlier included tx
 	StakeSeq     int // unstake: which stake was meant (-1 unknown)
@@ -535,6 +536,23 @@ func (w *World) applyMutation(p *TxPlan, tx *rtypes.Trx, mu *Mutation, act *Acto
 	case "version":
 		tx.Version++
 		p.Tampered = true
+	case "inject":
+		// attach payload bytes to a tx type that carries none on the wire (the signer never saw them).
+		// Whether this alters what executes is decided by the node's own decoder: if the decoded tx equals
+		// the signed one the addition is inert, otherwise it is tampering.
+		orig := *tx
+		tx.Payload = &rtypes.TrxPayloadContract{Data: []byte{0xee, 0xee, 0xee, 0xee, byte(act.Idx)}}
+		if bz, xerr := tx.Encode(); xerr == nil {
+			dec := &rtypes.Trx{}
+			if dec.Decode(bz) == nil {
+				origPl := orig.Payload
+				if dec.Payload == nil && (origPl == nil || origPl.Type() == rtypes.TRX_TRANSFER || origPl.Type() == rtypes.TRX_STAKING) {
+					p.InertMut = true
+				} else {
+					p.Tampered = true
+				}
+			}
+		}
 	case "payload":
 		switch pl := tx.Payload.(type) {
 		case *rtypes.TrxPayloadUnstaking:
